@@ -27,11 +27,11 @@ func (v *vnHV) Hashcode() interface{} { return v.H }
 const c19Max = 4
 
 type c19Model struct {
-	n    int
-	v    [c19Max]bool        // vertex present
-	rep  [c19Max]Vertex      // representative stored for the id
-	e    [c19Max][c19Max]bool // edge present
-	w    [c19Max][c19Max]int  // its weight
+	n   int
+	v   [c19Max]bool         // vertex present
+	rep [c19Max]Vertex       // representative stored for the id
+	e   [c19Max][c19Max]bool // edge present
+	w   [c19Max][c19Max]int  // its weight
 }
 
 var c19ids = [c19Max]int{0, 1, 2, 3}
